@@ -511,6 +511,51 @@ func c02Run(c *engine.Ctx) {
 			}, build, both, true)
 		}
 	}
+	// (iii-b) lists whose members may write nothing: every arrangement of length <= 3 over {iri, object, link, nil, typed nil, empty IRI, empty object}
+	members := []struct {
+		name string
+		mk   func() ap.Item
+	}{
+		{"iri", func() ap.Item { return ap.IRI("https://example.com/i") }},
+		{"obj", func() ap.Item { return &ap.Object{ID: "https://example.com/o", Type: ap.NoteType} }},
+		{"link", func() ap.Item { return &ap.Link{Type: ap.MentionType, Href: "https://example.com/h"} }},
+		{"nil", func() ap.Item { return nil }},
+		{"typed-nil", func() ap.Item { return (*ap.Object)(nil) }},
+		{"empty-iri", func() ap.Item { return ap.IRI("") }},
+		{"empty-object", func() ap.Item { return &ap.Object{} }},
+	}
+	var arr func(cur []int)
+	arr = func(cur []int) {
+		if len(cur) > 0 {
+			idx := append([]int{}, cur...)
+			names := make([]string, len(idx))
+			for i, x := range idx {
+				names[i] = members[x].name
+			}
+			mkList := func() ap.ItemCollection {
+				l := make(ap.ItemCollection, len(idx))
+				for i, x := range idx {
+					l[i] = members[x].mk()
+				}
+				return l
+			}
+			label := "[" + strings.Join(names, ",") + "]"
+			c02Check(c, "sparse-list", "members-that-write-nothing", func() string { return "bare ItemCollection " + label }, func() any { return mkList() }, []string{"method"}, true)
+			c02Check(c, "sparse-list", "members-that-write-nothing", func() string { return "*Activity with to/tag/object/audience = " + label }, func() any {
+				return &ap.Activity{ID: "https://example.com/a", Type: ap.CreateType, To: mkList(), Tag: mkList(), Object: mkList(), Audience: mkList(), Actor: &ap.Actor{ID: "https://example.com/p", Type: ap.PersonType, Streams: mkList()}}
+			}, both, true)
+			c02Check(c, "sparse-list", "members-that-write-nothing", func() string { return "*OrderedCollection with orderedItems = " + label }, func() any {
+				return &ap.OrderedCollection{ID: "https://example.com/c", Type: ap.OrderedCollectionType, OrderedItems: mkList()}
+			}, both, true)
+		}
+		if len(cur) >= 3 {
+			return
+		}
+		for x := range members {
+			arr(append(cur, x))
+		}
+	}
+	arr(nil)
 	// (iv) scalar marshalers
 	for _, h := range hostile {
 		h := h
